@@ -218,6 +218,11 @@ class SerializedFileBufferedCollection(FileBufferedCollection):
                 buffer_size_change = len(blob) - len(cached_data["contents"])
                 type(self)._CURRENT_BUFFER_SIZE += buffer_size_change
                 cached_data["contents"] = blob
+                if cached_data["metadata"] is None:
+                    # The file did not exist when it entered the buffer, so
+                    # whatever is saved has to create it at the flush, even if
+                    # it equals the data this collection held in memory then.
+                    cached_data["hash"] = self._hash(self._encode(None))
             else:
                 # The only methods that could safely call sync without a load are
                 # destructive operations like `reset` or `clear` that completely
